@@ -59,7 +59,7 @@ def validate_stream(rep, name, lines, impl, strict):
 
 def known_entry(prop):
     for k in vlib.load_known().get("findings", []):
-        if k.get("property") == prop and k.get("id") == KNOWN_ID:
+        if k.get("property") == prop and (k.get("id") == KNOWN_ID or str(k.get("stream", "")).startswith("td-mcc")):
             return k
     return None
 
